@@ -71,6 +71,22 @@ def cases(rng, tier):
     n = 16000 if tier == "quick" else 320000
     for i in range(n):
         out.append((gs.rand_lts_case(rng, 8, default=(i % 8 == 0)).fmt(), "random"))
+    # larger systems: more than 31 (label, source) pairs, so that the engine's shared counters span several rows and blocks are split repeatedly
+    for i in range(150 if tier == "quick" else 4000):
+        out.append((gs.rand_lts_case(rng, 36, default=(i % 4 == 0), minn=12, maxlabels=6).fmt(), "random_large"))
+    # a small core plus padding states with self-loops: the core's (label, state) counters end up alone in a row of the shared counter table
+    for i in range(500 if tier == "quick" else 5000):
+        nc = rng.randint(3, 7); npad = rng.randint(24, 34); n = nc + npad
+        nl = rng.randint(2, 3)
+        es = gs.rand_edges(rng, nc, nl, rng.randint(nc, 3 * nc))
+        es += [(q, rng.randrange(nl) if rng.random() < 0.2 else 0, q) for q in range(nc, n) if rng.random() < 0.95]
+        perm = list(range(n)); rng.shuffle(perm)
+        if rng.random() < 0.5: perm = list(range(n))
+        es = [(perm[s], a, perm[d]) for (s, a, d) in es]
+        if i % 3 == 0: out.append((gs.LtsCase(n, es).fmt(), "targeted_padded"))
+        else:
+            part = gs.rand_partition(rng, n, rng.randint(1, 3))
+            out.append((gs.LtsCase(n, es, part, gs.rand_preorder(rng, len(part))).fmt(), "targeted_padded"))
     return out
 
 def nontrivial(c, impl, verd):
